@@ -84,6 +84,11 @@ HANDSHAKE_STEPS = 6
 # victim holds no / one spare peer connection ID (the peer withholds NEW_CONNECTION_ID frames), or
 # had seven and consumed them all with change_connection_id()
 SPARE_CID_STATES = ["nospare", "onespare", "consumed"]
+# server whose anti-amplification budget on the (unvalidated) path is exhausted: it received the
+# client's Initial only (ampK: the client additionally processed K datagrams of the server's
+# flight, so the hostile peer holds Handshake / 1-RTT keys), nothing else ever reached the server,
+# and its retransmission timers ran until datagrams_to_send() has nothing left it may send
+AMP_STATES = ["amp0", "amp2"]
 ZERO_RTT_STATES = ["zrtt1", "zrtt2"]     # server after 1 / 2 deliveries of a resumed handshake with early data
 STATES = (["fresh"] + [f"hs{k}" for k in range(HANDSHAKE_STEPS + 1)] +
           ["connected", "streams", "keyupdate", "closepending", "closing", "draining", "terminated"])
@@ -188,6 +193,26 @@ def build_state(role, state, seed, *, quic_logger=False, client_options=None, se
 
         pc._replenish_connection_ids = replenish
     sim.connect()
+    if state.startswith("amp"):
+        server, client = sim.server, sim.client
+        d = sim.pending.pop(0)
+        sim.now += 0.001
+        sim.deliver(d)                                   # the client's Initial reaches the server
+        for _ in range(int(state[3:])):                   # the client sees K datagrams of the answer
+            nxt = [x for x in sim.pending if x["dst"] is client]
+            if not nxt:
+                break
+            sim.pending.remove(nxt[0])
+            sim.now += 0.001
+            sim.deliver(nxt[0])
+        sim.pending.clear()                               # whatever the client sends is lost
+        for _ in range(12):                               # probe timeouts burn the 3x budget
+            t = sim.check_timer(server)
+            if t is None or t - sim.now > 20:
+                break
+            sim.fire_timer(server)
+            sim.pending.clear()
+        return sim, victim, rec
     if state in SPARE_CID_STATES:
         sim.fair_phase(max_steps=60, done=lambda: sim.client.conn._handshake_confirmed
                        and sim.server.conn._handshake_confirmed and not sim.pending)
@@ -856,6 +881,15 @@ def tp_mutations(r):
     muts.append(("vi-other-chosen", setp(0x11, b"\x6b\x33\x43\xcf" + b"\x6b\x33\x43\xcf\x00\x00\x00\x01")))
     muts.append(("vi-v2-first", setp(0x11, b"\x00\x00\x00\x01" + b"\x6b\x33\x43\xcf\x00\x00\x00\x01")))
     muts.append(("vi-unknown-first", setp(0x11, b"\x00\x00\x00\x01" + b"\x1a\x2a\x3a\x4a\x00\x00\x00\x01")))
+    # version_information = chosen_version + available_versions, over a lattice of version lists
+    v1, v2, vx = 1, 0x6B3343CF, 0x1A2A3A4A
+    names = {v1: "v1", v2: "v2", vx: "vx"}
+    avail_lists = [[v1], [v2], [v1, v2], [v2, v1], [vx, v1], [v1, vx], [v2, vx, v1], [v1, v1], [v2, v2, v1],
+                   [vx], [vx, v2], [v2, v1, v2], []]
+    for chosen in (v1, v2, vx):
+        for av in avail_lists:
+            body = b"".join(x.to_bytes(4, "big") for x in [chosen] + av)
+            muts.append(("vinfo-%s-[%s]" % (names[chosen], ",".join(names[x] for x in av)), setp(0x11, body)))
     # structure
     muts.append(("empty", raw(lambda ps: b"")))
     muts.append(("dup-all", raw(lambda ps: join_params(ps + ps))))
@@ -875,11 +909,16 @@ def tp_mutations(r):
     return muts
 
 
-def run_tp_scenario(role, label, op, seed, *, qlog=False, traffic=True):
-    """victim `role` talks to a real peer which announces crafted transport parameters"""
+VERSION_CONFIGS = [[1], [0x6B3343CF], [1, 0x6B3343CF], [0x6B3343CF, 1]]
+
+
+def run_tp_scenario(role, label, op, seed, *, qlog=False, traffic=True, client_options=None, server_options=None):
+    """victim `role` talks to a real peer which announces crafted transport parameters; the
+    configurations of both endpoints (supported_versions, original_version, …) are part of the case"""
     install_cert_cache()
     rec = Recorder()
-    sim = S.Sim(seed, quic_logger=qlog, monitors=[rec])
+    sim = S.Sim(seed, quic_logger=qlog, monitors=[rec], client_options=dict(client_options or {}),
+                server_options=dict(server_options or {}))
     sim.recorder = rec
     victim = sim.client if role == "client" else sim.server
     peer = victim.peer
